@@ -27,6 +27,29 @@ func (ec *evalCtx) evalCall(call *ast.CallExpr) Value {
 			return ec.evalBuiltin(b.Name(), call)
 		}
 	}
+	// sync/atomic on an addressable integer: the location is shared with other goroutines, so what is read is
+	// unconstrained (within the type) and what is written is forgotten at once
+	if f := calleeFunc(ec.info, call); f != nil && f.Pkg() != nil && f.Pkg().Path() == "sync/atomic" && len(call.Args) >= 1 {
+		if ue, ok := ast.Unparen(call.Args[0]).(*ast.UnaryExpr); ok && ue.Op == token.AND {
+			lv := ec.lvalue(ue.X)
+			t := ec.info.TypeOf(ue.X)
+			for _, a := range call.Args[1:] {
+				ec.eval(a)
+			}
+			fresh := ec.e().freshValue(ec.st, "atomic."+f.Name(), t, false)
+			lv.set(ec.e().freshValue(ec.st, "atomic.cell", t, false))
+			ec.e().notes = appendUnique(ec.e().notes, "sync/atomic operations: the value read is unconstrained within its type (other goroutines), the cell is unknown afterwards")
+			switch {
+			case strings.HasPrefix(f.Name(), "Add"), strings.HasPrefix(f.Name(), "Load"), strings.HasPrefix(f.Name(), "Swap"):
+				return fresh
+			case strings.HasPrefix(f.Name(), "Store"):
+				return nil
+			case strings.HasPrefix(f.Name(), "CompareAndSwap"):
+				return Var(ec.e().fresher.name("atomic.cas"), SBool)
+			}
+			panic(unsupported("sync/atomic.%s", f.Name()))
+		}
+	}
 	var recv Value
 	if sel, ok := ast.Unparen(call.Fun).(*ast.SelectorExpr); ok {
 		if s := ec.info.Selections[sel]; s != nil && s.Kind() == types.MethodVal {
@@ -342,7 +365,17 @@ func (ec *evalCtx) evalBuiltin(name string, call *ast.CallExpr) Value {
 		case *types.Map:
 			return ec.e().emptyMap(ec.st, u)
 		case *types.Chan:
-			return Var(ec.e().fresher.name("chan"), SInt)
+			// a channel is its identity; a channel made here is fresh (nobody else knows it) until a ghost
+			// initialisation (init clause) binds its tag
+			c := Var(ec.e().fresher.name("chan"), SInt)
+			ec.st.Assume(Gt(c, Int(0)))
+			capv := Int(0)
+			if len(call.Args) > 1 {
+				capv = scalar(ec.eval(call.Args[1]))
+			}
+			ec.st.Assume(Eq(App("chan.cap", SInt, c), capv))
+			ec.st.ghost["chanfresh:"+c.Name] = True
+			return c
 		}
 		panic(unsupported("make(%s)", t))
 	case "new":
@@ -363,6 +396,12 @@ func (ec *evalCtx) evalBuiltin(name string, call *ast.CallExpr) Value {
 			}
 		}
 		return r
+	case "close":
+		ec.eval(call.Args[0])
+		if ci := ec.chanInvOf(call.Args[0]); ci != nil {
+			ec.oblige("send", False, call.Pos(), "close of a channel of "+ci.Elem+": receivers assume the channel invariant of every value received, a closed channel delivers zero values")
+		}
+		return nil
 	case "delete":
 		lv := ec.lvalue(call.Args[0])
 		m := lv.get().(*MapV)
@@ -373,8 +412,6 @@ func (ec *evalCtx) evalBuiltin(name string, call *ast.CallExpr) Value {
 		return nil
 	case "copy":
 		panic(unsupported("copy"))
-	case "close":
-		panic(unsupported("close of channel"))
 	}
 	panic(unsupported("builtin %s", name))
 }
